@@ -102,6 +102,9 @@ class NoImportBlockError(Exception):
 class ImportAlreadyExistsError(Exception):
     pass
 
+class ImportConflictError(Exception):
+    pass
+
 class SourceToSourceFileImportsTransformation(SourceToSourceTransformationBase):
     def preprocess(self):
         # Group into blocks of imports and non-imports.  Get a sequence of all
@@ -301,6 +304,11 @@ class SourceToSourceFileImportsTransformation(SourceToSourceTransformationBase):
             block = self.insert_new_import_block()
         if imp in block.importset.imports:
             raise ImportAlreadyExistsError(imp)
+        if (imp.import_as != "*"
+            and imp.import_as in block.importset.by_import_as):
+            # The block already binds that name to something else; adding
+            # ``imp`` would make the block unprintable.
+            raise ImportConflictError(imp)
         block.importset = block.importset.with_imports([imp])
 
 
@@ -474,7 +482,13 @@ def fix_unused_and_missing_imports(
             imp_to_add = imports[0]
             if imp_to_add in added_imports:
                 continue
-            transformer.add_import(imp_to_add, lineno)
+            try:
+                transformer.add_import(imp_to_add, lineno)
+            except ImportConflictError:
+                logger.error("%s: not adding %r: its name is already bound "
+                             "by another import", filename,
+                             imp_to_add.pretty_print().strip())
+                continue
             added_imports.add(imp_to_add)
             logger.info("%s: added %r", filename,
                         imp_to_add.pretty_print().strip())
@@ -487,6 +501,10 @@ def fix_unused_and_missing_imports(
                 transformer.add_import(imp)
             except ImportAlreadyExistsError:
                 pass
+            except ImportConflictError:
+                logger.error("%s: not adding mandatory %r: its name is "
+                             "already bound by another import", filename,
+                             imp.pretty_print().strip())
             else:
                 logger.info("%s: added mandatory %r",
                             filename, imp.pretty_print().strip())
